@@ -796,7 +796,7 @@ def r_transpose_axes(c):
     m = c.model
     from pta.rules.c02 import _IN, _OUT, _perm_roles
     fd0 = m.resolve_method(NL + ".NumpyCodegenMapper", "map_axis_permutation")[1]
-    fd = m.expand_locals(m.inlined(fd0), only="aliases")
+    fd = m.expand_locals(m.inlined(fd0))
     for n in ast.walk(fd):
         for ch in ast.iter_child_nodes(n):
             ch._parent = n
